@@ -206,6 +206,40 @@ pub mod verif_exec {
         std::mem::forget(b);
     }
 
+    /// An ExecutionState with N tasks in the given (concrete or symbolic) states, `current` running.
+    pub fn state_with(states: [TaskState; N], current: usize, sched: Rc<RefCell<SpecSched>>) -> ExecutionState {
+        let mut cfg = Config::new();
+        cfg.max_steps = MaxSteps::None;
+        let mut st = ExecutionState::new(cfg, sched);
+        let buf: *mut Task = unsafe { VERIF_STORE };
+        assert!(!buf.is_null());
+        let mut live: Vec<TaskId> = Vec::with_capacity(DEFAULT_INLINE_TASKS);
+        let mut i = 0;
+        while i < N {
+            unsafe { (*buf.add(i)).verif_reset(states[i], false) };
+            if states[i] != TaskState::Finished {
+                live.push(TaskId(i));
+            }
+            i += 1;
+        }
+        let old_live = std::mem::replace(&mut st.live_tasks, live);
+        std::mem::forget(old_live);
+        unsafe { std::ptr::write(&mut st.tasks, SmallVec::from_raw_parts(buf, N, DEFAULT_INLINE_TASKS + 1)) };
+        st.current_task = ScheduledTask::Some(TaskId(current));
+        st
+    }
+
+    /// Run `f` with `st` installed as the current execution state; returns the state for inspection (never dropped).
+    pub fn run_in<R>(st: ExecutionState, f: impl FnOnce() -> R) -> (R, std::mem::ManuallyDrop<RefCell<ExecutionState>>) {
+        let cell = std::mem::ManuallyDrop::new(RefCell::new(st));
+        let r = EXECUTION_STATE.set(&cell, f);
+        (r, cell)
+    }
+
+    pub fn task_state(cell: &RefCell<ExecutionState>, i: usize) -> TaskState {
+        cell.borrow().tasks[i].verif_state()
+    }
+
     pub fn any_max_steps() -> MaxSteps {
         match kani::any::<u8>() % 3 {
             0 => MaxSteps::None,
